@@ -104,4 +104,52 @@ theorem decode_encode (x : Bytes) : decode (encode x) = some x := by
   · exact decodeRaw_encode x
   · rw [stripPad_encode]; exact decodeRaw_encode x
 
+/-! ### the GET `message` parameter: URL-safe, padded -/
+
+def swapURL (c : UInt8) : UInt8 := if c == 43 then 45 else if c == 47 then 95 else c
+
+theorem swap_encChar : ∀ n : Fin 64, unswapURL (swapURL (encChar n.val)) = encChar n.val ∧
+    (swapURL (encChar n.val) == 61) = false := by decide
+
+theorem dropPadRev_pad (l : Bytes) (h : ∀ c ∈ l, (c == 61) = false) :
+    dropPadRev l = l ∧ dropPadRev (61 :: l) = l ∧ dropPadRev (61 :: 61 :: l) = l := by
+  refine ⟨dropPadRev_id l h, ?_, by simp [dropPadRev]⟩
+  match l, h with
+  | [], _ => simp [dropPadRev]
+  | b :: t, h => simp [dropPadRev, h b (by simp)]
+
+theorem decodeURLPadded_encode (x : Bytes) : decodeURLPadded (encodeURLPadded x) = some x := by
+  unfold decodeURLPadded encodeURLPadded
+  have hsw : (fun c : UInt8 => if c == 43 then 45 else if c == 47 then 95 else c) = swapURL := rfl
+  simp only [hsw]
+  generalize he : (encode x).map swapURL = e
+  have hmem : ∀ c ∈ e, ∃ n : Fin 64, c = swapURL (encChar n.val) := by
+    intro c hc
+    rw [← he] at hc
+    simp only [encode, List.mem_map] at hc
+    obtain ⟨_, ⟨s, hs, rfl⟩, rfl⟩ := hc
+    exact ⟨⟨s, sextets_lt _ (toNat_lt x) s hs⟩, rfl⟩
+  have hno : ∀ c ∈ e.reverse, (c == 61) = false := by
+    intro c hc
+    obtain ⟨n, rfl⟩ := hmem c (by simpa using hc)
+    exact (swap_encChar n).2
+  obtain ⟨h0, h1, h2⟩ := dropPadRev_pad e.reverse hno
+  have hstrip : stripPad (e ++ (if e.length % 4 == 2 then [61, 61] else if e.length % 4 == 3 then [61] else [])) = e := by
+    unfold stripPad
+    split
+    · simp [h2]
+    · split
+      · simp [h1]
+      · simp [h0]
+  rw [hstrip, ← he, List.map_map]
+  have : (encode x).map (unswapURL ∘ swapURL) = encode x := by
+    conv => rhs; rw [← List.map_id (encode x)]
+    apply List.map_congr_left
+    intro c hc
+    simp only [encode, List.mem_map] at hc
+    obtain ⟨s, hs, rfl⟩ := hc
+    exact (swap_encChar ⟨s, sextets_lt _ (toNat_lt x) s hs⟩).1
+  rw [this]
+  exact decodeRaw_encode x
+
 end ConfModel.Base64
